@@ -461,7 +461,7 @@ pub fn all_configs() -> Vec<Cfg> {
 }
 
 pub fn run(ctx: &mut Ctx) {
-    ctx.rule = "complete product: store capability (3) x residentKey (absent, discouraged, preferred, required) x requireResidentKey (2) x credProps request (absent, false, true) x PRF requested on a PRF-capable authenticator (2) through Client::register followed by three authentications under userVerification preferred / discouraged / required (counters on, so the record is rewritten in between), plus authenticatorSelection absent (3x3), plus the capability changing to each other value while the user is asked (credProps requested; only credProps-versus-stored and the assertion rules are judged), plus the store handed over inside each of the four lock wrappers (through the Arc wrappers also while another task holds the lock until the ceremony cannot proceed), a final assertion whose allow list names the new credential and a sibling, the judged registration preceded by an earlier resident registration under another capability, plus authenticators whose user verification is present-but-unconfigured or absent (ceremonies then run with userVerification discouraged), plus capability x CTAP rk (2) through make_credential / get_assertion. Every configuration is distinct and non-trivial.".into();
+    ctx.rule = "complete product: store capability (3) x residentKey (absent, discouraged, preferred, required) x requireResidentKey (2) x credProps request (absent, false, true) x PRF requested on a PRF-capable authenticator (2) through Client::register followed by three authentications under userVerification preferred / discouraged / required (counters on, so the record is rewritten in between), plus authenticatorSelection absent (3x3), plus the capability changing to each other value while the user is asked (credProps requested; only credProps-versus-stored and the assertion rules are judged), plus the store handed over inside each of the four lock wrappers (through the Arc wrappers also while another task holds the lock until the ceremony cannot proceed), a final assertion whose allow list names the new credential and a sibling, the judged registration preceded by an earlier resident registration under another capability, plus authenticators whose user verification is present-but-unconfigured or absent (ceremonies then run with userVerification discouraged), plus capability x CTAP rk (2) through make_credential / get_assertion. Every configuration is distinct and non-trivial. Since rounds 7/8: user ids of 1..64 bytes, options through JSON with an unknown residentKey string, relying parties named in the library's sources, credProps also read from the serialised credential.".into();
     ctx.exhaustive = Some(true);
     ctx.assumptions = vec!["the capability is set through the reference store's get_info; user validation always consents".into()];
     let all = all_configs();
